@@ -33,6 +33,9 @@ RULE = ("for every class with a hand-written __eq__/__hash__ (52 constructors in
         "mutating methods with canned arguments applied to two twins (translate_rotate, add_predecessor, append_state, "
         "fill_with_defaults, convert_to_2d, cleanup_*, ...); pickle / copy.copy / dataclasses.replace; the rarely used "
         "builders (list form of add_objects + replace_lanelet_network, create_from_lanelet_list, add_planning_problem, empty "
+        "state / signal state filled attribute by attribute) and, for EVERY Scenario / LaneletNetwork, the construction routes "
+        "(container-level vs member-level add, single elements vs whole network, shuffled element order, an extra element "
+        "added and removed again through the scenario / its lanelet network in all four combinations; "
         "state / signal state filled attribute by attribute); int instead of integral floats and numpy scalars instead of "
         "Python numbers; ids from 0; magnitudes up to 1e6; the table of all 377 setters and public methods of the 52 classes "
         "(harness/c12_dimensions.json) is compared with the working tree on every run (unknown entry => exit 2); non-trivial = every case (>= 1 perturbed pair); distinct = distinct "
@@ -55,7 +58,8 @@ ASSUMPTIONS = [
     "a value handed to a setter is the value a constructor stores for that attribute (a raw None / list that only the "
     "constructor normalises is outside 'built through the public constructors'); setters that are not constructor-visible "
     "(Lanelet.distance, *_obstacles_on_lanelet, obstacle_role, Rectangle.vertices, wheelbase_lengths) are outside the quantifier; "
-    "container edits that take objects (add_* / remove_* after assembly) belong to C09/C10",
+    "container edits that take objects are exercised as construction routes of Scenario / LaneletNetwork (add through either "
+    "level, add + remove of an unreferenced extra element); what removal does to references is C09/C10",
     "mutable default arguments shared between instances (TrafficSignElement.additional_values=[], Scenario.scenario_id, "
     "LaneletNetwork.information) are never edited in place by the generator: an in-place edit of one changes every instance "
     "built with the default, which keeps them equal (no C12 verdict)",
@@ -71,7 +75,9 @@ REQUIRED_BUCKETS = ["cls:" + c for c in S.CLASSES] + ["pair:self", "pair:deepcop
                                                         "history:reads", "dimension-table"] + \
     ["history:" + k for k in ("set-change", "set-restore", "set-same", "set-bad", "inplace-change", "inplace-restore", "nested-set",
                               "call", "pickle", "copy", "replace", "alt-entry", "numeric-int", "numeric-np",
-                              "identical-getter-values")]
+                              "identical-getter-values", "route:member-level", "route:single-objects", "route:shuffled",
+                              "route:cleanup-only")] + \
+    ["route:identical-getter-values:" + k for k in ("member-level", "single-objects", "shuffled", "add-remove")]
 WORKERS = {"quick": 4, "thorough": 8}
 
 QUICK_PER_CLASS = 48
@@ -315,7 +321,8 @@ def run_case(ctx, dx, only=None):
         enc_pairs.append((ex if left is x else S.encode(left), S.encode(y)))
         oracle_pair(ctx, cls, dx, dy, left, y, ob, kind, attr, demand)
     hash_correspondence(ctx, cls, dx, x, objs, obs, only)
-    if only is None and ctx.rng.random() < (0.5 if ctx.tier == "quick" else 0.08):  # histories on a part of the instances
+    if only is None and (cls in ("Scenario", "LaneletNetwork") or ctx.rng.random() < (0.5 if ctx.tier == "quick" else 0.08)):
+        # histories on a part of the instances; the two containers always (their construction routes)
         run_histories(ctx, cls, dx, x)
     # correspondence: the model's verdicts for == and for "hash keys agree" on the same pairs
     model = model_pairs(ctx, enc_pairs)
@@ -340,8 +347,10 @@ def run_histories(ctx, cls, dx, x, hs=None):
     hs = hs if hs is not None else H.gen_histories(ctx.rng, dx)
     pairs, meta = [], []
     for h in hs:
-        y = try_build(dx)
+        y = try_build(h.get("y_desc", dx))
         if y is None:
+            if "y_desc" in h:
+                ctx.tag("route-not-applicable:" + h["hkind"])
             continue
         r = call(H.apply_history, y, h["hist"])
         if r[0] != "ok":
@@ -370,6 +379,8 @@ def run_histories(ctx, cls, dx, x, hs=None):
         same = sy == sw
         if same:
             ctx.tag("history:identical-getter-values")
+            if h["hkind"].startswith("route:"):
+                ctx.tag("route:identical-getter-values:" + ("add-remove" if "add-remove" in h["hkind"] else h["hkind"][6:]))
         oracle_pair(ctx, cls, sub, None, w, y, ob, "history/" + h["hkind"], h.get("attr"), "equal" if same else None, case=sub)
         pairs.append((ew[1], ey[1]))
         meta.append((sub, ob))
